@@ -80,6 +80,7 @@ def run(facts, rep):
     d12_no_user_code_after_self_destruction(facts, rep)
     d12_fold_tolerates_throwing_join(facts, rep)
     d13_constructor_reservations(facts, rep)
+    d13_storage_of_failed_constructions(facts, rep)
     idiom(facts, rep)
 
 
@@ -756,3 +757,31 @@ def d13_constructor_reservations(facts, rep):
                % (cls.split('::')[-1], len(set(throwing)), ', '.join(sorted(set(throwing))[:3])), key_extra='ctor-reserve|' + cls)
     if n < 1:
         raise AnalysisBroken('no constructor reserving a wait reference with throwing derived constructors found (graph_task)')
+
+
+def d13_storage_of_failed_constructions(facts, rep):
+    """small_object_allocator::new_object obtains storage from the thread's pool and constructs the object (a task holding a
+    copy of the user's functor, body or message) in place.  The constructor can throw whatever the user's copy constructor
+    throws; the exception reaches the caller (task_group::run, try_put ...), and the storage has to go back to the pool on that
+    path - otherwise every failed submission leaks one block ("all objects the library created are destroyed exactly once"
+    includes what was allocated for an object that never came to life).  Decided with exit_coverage on every instantiation
+    whose constructor may throw."""
+    from rules.common import MayThrow
+    mt = MayThrow(facts, external_may_throw=False)
+    summ = Summaries(facts, max_depth=2)
+
+    def gives_back(g, pos, e):
+        return isinstance(e, int) and g.nodes[e].get('k') == 'call' and ((g.callee(e) or {}).get('q') or '') == R1 + 'deallocate'
+    n = 0
+    for fn in facts.get(D1 + 'small_object_allocator::new_object'):
+        def throwing_ctor(g, pos, e):
+            return isinstance(e, int) and g.nodes[e].get('k') == 'ctor' and mt.node(g, e)
+        nops, normal_ok, exc_ok, notes = exit_coverage(facts, summ, fn, throwing_ctor, gives_back, 'returns-storage')
+        if not nops:
+            continue
+        n += 1
+        rep.ob('D13', 'K3', fn, 'storage obtained for an object whose constructor throws is returned to the pool', exc_ok,
+               'the constructor runs user code (copy of a functor / body / message) and nothing deallocates the block when it throws: every '
+               'failed task_group::run / try_put leaks one small object', key_extra='new_object')
+    if n < 1:
+        raise AnalysisBroken('no instantiation of small_object_allocator::new_object with a throwing constructor found')
